@@ -69,6 +69,13 @@ func process1MapMerge(obj map[string]any, mergeFrom *Document, mergeFromDocs []*
 		return nil, err
 	}
 
+	if containsMap(in, obj) {
+		// The target contains the map it is being merged into.
+		return nil, fmt.Errorf("%v: %w", v, ErrCircularRef)
+	}
+
+	in = copyTree(in)
+
 	next, err := mergeMap(obj, in)
 	if err != nil {
 		return nil, err
@@ -83,7 +90,7 @@ func process1MapReplace(obj map[string]any, mergeFrom *Document, mergeFromDocs [
 		return nil, err
 	}
 
-	return process1(next, mergeFrom, mergeFromDocs, depth)
+	return process1(copyTree(next), mergeFrom, mergeFromDocs, depth)
 }
 
 func process1List(obj []any, mergeFrom *Document, mergeFromDocs []*Document, depth int) (any, error) {
@@ -153,7 +160,7 @@ func process1ListReplace(obj []any, mergeFrom *Document, mergeFromDocs []*Docume
 		return nil, err
 	}
 
-	return process1(next, mergeFrom, mergeFromDocs, depth)
+	return process1(copyTree(next), mergeFrom, mergeFromDocs, depth)
 }
 
 func process1String(obj string, mergeFrom *Document, mergeFromDocs []*Document, depth int) (any, error) {
@@ -176,7 +183,7 @@ func process1StringMerge(obj string, mergeFrom *Document, mergeFromDocs []*Docum
 		return nil, err
 	}
 
-	return process1(in, mergeFrom, mergeFromDocs, depth)
+	return process1(copyTree(in), mergeFrom, mergeFromDocs, depth)
 }
 
 func process1StringReplace(obj string, mergeFrom *Document, mergeFromDocs []*Document, depth int) (any, error) {
@@ -187,5 +194,5 @@ func process1StringReplace(obj string, mergeFrom *Document, mergeFromDocs []*Doc
 		return nil, err
 	}
 
-	return process1(in, mergeFrom, mergeFromDocs, depth)
+	return process1(copyTree(in), mergeFrom, mergeFromDocs, depth)
 }
